@@ -839,6 +839,11 @@ class Body:
         aggs = self._agg_defs(pl['l'])
         if not aggs:
             return None
+        uniq = []
+        for a in aggs:
+            if not any(a is u for u in uniq):
+                uniq.append(a)
+        aggs = uniq
         out = []
         for rv in aggs:
             # every definition must be an aggregate; reading `(x as V).i` implies x is a V, so only the
